@@ -78,100 +78,137 @@ func labellings(c *engine.Ctx, n, count int, stream string, idx int) [][]int {
 }
 
 func run(c *engine.Ctx) {
-	// ---------------------------------------------------------------- 1. all classes
+	// Order of the units = order of the report: small sizes first, and the
+	// two kinds of sweeps interleaved so that the first witnesses of either are
+	// among the first units.
 	maxN := c.Pick(7, 8)
-	for n := 0; n <= maxN; n++ {
-		n := n
-		per := 1 << 20
-		switch {
-		case n == 5:
-			per = 17
-		case n == 6:
-			per = 20
-		case n == 7:
-			per = 18
-		case n == 8:
-			per = 26
-		}
-		nClasses := classCount(n)
-		nLab := c.Pick(6, 8)
-		if n == 8 {
-			nLab = 4
-		}
-		if n <= 1 {
-			nLab = 1
-		}
-		for lo := 0; lo < nClasses; lo += per {
-			lo := lo
-			hi := lo + per
-			if hi > nClasses {
-				hi = nClasses
-			}
-			c.Unit(fmt.Sprintf("classes/n=%d/%d-%d", n, lo, hi-1), func() {
-				cls := gen.Classes(n)
-				for ci := lo; ci < hi && !c.Stopped(); ci++ {
-					base := cls[ci]
-					r := computeRef(base, true, true)
-					if !refComplete(c, base, r) {
-						continue
-					}
-					for li, p := range labellings(c, n, nLab, "class-labelling", n*100000+ci) {
-						cs := &graphCase{workload: "classes", class: base.G6(), labelling: li, perm: p, g: base.Induced(p), ref: r}
-						opt := runOpts{index: true, polyDense: true, allOrders: n <= c.Pick(5, 6) && li == 0, seededOrders: 3, rng: caseRng(c, li < 2, "class", n*100000+ci, li)}
-						runCase(c, cs, opt)
-					}
-				}
-				if lo == 0 {
-					c.Obs(fmt.Sprintf("exhaustive:all %d classes on n=%d x %d labellings x 5 representations", nClasses, n, nLab), 1)
-				}
-			})
-		}
+	for n := 0; n <= 5; n++ {
+		classUnits(c, n)
 	}
+	for n := 0; n <= 6; n++ {
+		polySparseUnits(c, n)
+	}
+	classUnits(c, 6)
+	polySparseUnits(c, 7)
+	classUnits(c, 7)
+	if maxN >= 8 {
+		polySparseUnits(c, 8)
+		classUnits(c, 8)
+	}
+	familyUnits(c)
+	seededUnits(c)
+}
 
-	// ---------------------------------------------------------------- 2. ChromaticPolynomial on SparseGraph
-	// Separate units: on a tree where SparseGraph.RemoveVertex is broken (C05)
-	// this call does not return, and a budget event costs the rest of its unit.
-	type block struct {
-		name       string
-		n, lo, hi int
+// classUnits: every isomorphism class on n vertices x labellings x
+// representations x all functions.
+func classUnits(c *engine.Ctx, n int) {
+	per := 1 << 20
+	switch n {
+	case 5:
+		per = 17
+	case 6:
+		per = 20
+	case 7:
+		per = 18
+	case 8:
+		per = 26
 	}
-	var blocks []block
-	for n := 0; n <= maxN; n++ {
-		per := classCount(n)
-		if n == 7 {
-			per = 131
+	nClasses := classCount(n)
+	nLab := c.Pick(6, 8)
+	if n == 8 {
+		nLab = 4
+	}
+	if n <= 1 {
+		nLab = 1
+	}
+	for lo := 0; lo < nClasses; lo += per {
+		lo := lo
+		hi := lo + per
+		if hi > nClasses {
+			hi = nClasses
 		}
-		if n == 8 {
-			per = 100
-		}
-		for lo := 0; lo < classCount(n); lo += per {
-			hi := lo + per
-			if hi > classCount(n) {
-				hi = classCount(n)
+		c.Unit(fmt.Sprintf("classes/n=%d/%d-%d", n, lo, hi-1), func() {
+			cls := gen.Classes(n)
+			for ci := lo; ci < hi && !c.Stopped(); ci++ {
+				base := cls[ci]
+				r := computeRef(base, true, true)
+				if !refComplete(c, base, r) {
+					continue
+				}
+				for li, p := range labellings(c, n, nLab, "class-labelling", n*100000+ci) {
+					cs := &graphCase{workload: "classes", class: base.G6(), labelling: li, perm: p, g: base.Induced(p), ref: r}
+					opt := runOpts{index: true, polyDense: true, allOrders: n <= c.Pick(5, 6) && li == 0, seededOrders: 3, rng: caseRng(c, li < 2, "class", n*100000+ci, li)}
+					runCase(c, cs, opt)
+				}
 			}
-			blocks = append(blocks, block{fmt.Sprintf("poly-sparse/n=%d/%d-%d", n, lo, hi-1), n, lo, hi})
-		}
+			if lo == 0 {
+				c.Obs(fmt.Sprintf("exhaustive:all %d classes on n=%d x %d labellings x 5 representations", nClasses, n, nLab), 1)
+			}
+		})
 	}
-	for _, bl := range blocks {
-		bl := bl
-		c.Unit(bl.name, func() {
-			cls := gen.Classes(bl.n)
-			for ci := bl.lo; ci < bl.hi && !c.Stopped(); ci++ {
+}
+
+// polySparseUnits: ChromaticPolynomial on *SparseGraph for every class on n
+// vertices x 3 labellings.  These are units of their own: on a tree where
+// SparseGraph.RemoveVertex does not maintain the degree sequence (C05) the call
+// does not return, and a budget event costs the rest of its unit.
+func polySparseUnits(c *engine.Ctx, n int) {
+	nClasses := classCount(n)
+	per := nClasses
+	if n == 7 {
+		per = 131
+	}
+	if n == 8 {
+		per = 100
+	}
+	for lo := 0; lo < nClasses; lo += per {
+		lo := lo
+		hi := lo + per
+		if hi > nClasses {
+			hi = nClasses
+		}
+		c.Unit(fmt.Sprintf("poly-sparse/n=%d/%d-%d", n, lo, hi-1), func() {
+			cls := gen.Classes(n)
+			for ci := lo; ci < hi && !c.Stopped(); ci++ {
 				base := cls[ci]
 				r := computeRef(base, true, false)
 				if r.colCount == nil {
 					c.Inconclusive("no colouring counts for " + base.G6())
 					continue
 				}
-				for li, p := range labellings(c, bl.n, 3, "poly-labelling", bl.n*100000+ci) {
+				for li, p := range labellings(c, n, 3, "poly-labelling", n*100000+ci) {
 					cs := &graphCase{workload: "poly-sparse", class: base.G6(), labelling: li, perm: p, g: base.Induced(p), ref: r}
-					j := newJudge(c, cs, "sparse", "rg.Sparse()", nil)
-					j.polynomial(cs.g.Sparse(), "sparse")
+					newJudge(c, cs, "sparse", "rg.Sparse()", nil).polynomial(cs.g.Sparse(), "sparse")
 				}
+			}
+			if lo == 0 {
+				c.Obs(fmt.Sprintf("exhaustive:ChromaticPolynomial(sparse) on all %d classes on n=%d x 3 labellings", nClasses, n), 1)
 			}
 		})
 	}
+}
 
+// familyUnits: named graphs with published values.
+func familyUnits(c *engine.Ctx) {
+	for fi, f := range families() {
+		fi, f := fi, f
+		c.Unit("family/"+f.name, func() {
+			withIndex := !f.heavyIndex && f.g.M() <= 32
+			r := computeRef(f.g, f.g.N <= 9, withIndex)
+			if !mergePublished(c, f, r) {
+				return
+			}
+			n := f.g.N
+			for li, p := range labellings(c, n, 3, "family-labelling", fi) {
+				cs := &graphCase{workload: "family:" + f.name, class: f.g.G6(), labelling: li, perm: p, g: f.g.Induced(p), ref: r}
+				opt := runOpts{index: withIndex, polyDense: n <= 9, seededOrders: 6, rng: caseRng(c, li < 2, "family", fi, li)}
+				runCase(c, cs, opt)
+			}
+			if fi < 2 || f.name == "petersen" {
+				c.Sample("family", map[string]interface{}{"name": f.name, "graph6": f.g.G6(), "omega": r.omega, "alpha": r.alpha, "chi": r.chi, "chi_index": r.chiIdx, "degeneracy": r.degen})
+			}
+		})
+	}
 	c.Unit("poly-sparse/families", func() {
 		for _, f := range families() {
 			if f.g.N > 9 || c.Stopped() {
@@ -184,48 +221,18 @@ func run(c *engine.Ctx) {
 			}
 		}
 	})
+}
+
+// seededUnits: seeded graphs on 9..13 vertices (and small ones), every
+// representation; the sparse polynomial again in units of its own.
+func seededUnits(c *engine.Ctx) {
 	nSeeded := c.Pick(1600, 12000)
 	perUnit := 12
-	for u := 0; u*perUnit*10 < nSeeded; u++ {
-		u := u
-		c.Unit(fmt.Sprintf("poly-sparse/seeded/%d", u), func() {
-			for i := u * perUnit * 10; i < (u+1)*perUnit*10 && i < nSeeded && !c.Stopped(); i++ {
-				g, what := seededGraph(c.Rand("seeded-graph", i), i)
-				if g.N > 9 {
-					continue
-				}
-				r := computeRef(g, true, false)
-				cs := &graphCase{workload: "poly-sparse", class: g.G6(), labelling: 0, perm: identity(g.N), g: g, ref: r}
-				_ = what
-				newJudge(c, cs, "sparse", "rg.Sparse()", nil).polynomial(cs.g.Sparse(), "sparse")
-			}
-		})
-	}
-
-	// ---------------------------------------------------------------- 3. named families
-	for fi, f := range families() {
-		fi, f := fi, f
-		c.Unit("family/"+f.name, func() {
-			r := computeRef(f.g, f.g.N <= 9, !f.heavyIndex && f.g.M() <= 32)
-			if !mergePublished(c, f, r) {
-				return
-			}
-			n := f.g.N
-			for li, p := range labellings(c, n, 3, "family-labelling", fi) {
-				cs := &graphCase{workload: "family:" + f.name, class: f.g.G6(), labelling: li, perm: p, g: f.g.Induced(p), ref: r}
-				opt := runOpts{index: !f.heavyIndex && f.g.M() <= 32, polyDense: n <= 9, allOrders: false, seededOrders: 6, rng: caseRng(c, li < 2, "family", fi, li)}
-				runCase(c, cs, opt)
-			}
-		})
-	}
-
-	// ---------------------------------------------------------------- 4. seeded graphs
 	for u := 0; u*perUnit < nSeeded; u++ {
 		u := u
 		c.Unit(fmt.Sprintf("seeded/%d", u), func() {
 			for i := u * perUnit; i < (u+1)*perUnit && i < nSeeded && !c.Stopped(); i++ {
-				rg0 := c.Rand("seeded-graph", i)
-				g, what := seededGraph(rg0, i)
+				g, what := seededGraph(c.Rand("seeded-graph", i), i)
 				r := computeRef(g, g.N <= 9, g.M() <= 18)
 				if !refComplete(c, g, r) {
 					continue
@@ -236,6 +243,20 @@ func run(c *engine.Ctx) {
 				if i < 2 {
 					c.Sample("seeded", map[string]interface{}{"kind": what, "graph6": g.G6(), "n": g.N, "m": g.M(), "omega": r.omega, "chi": r.chi, "chi_index": r.chiIdx, "degeneracy": r.degen})
 				}
+			}
+		})
+	}
+	for u := 0; u*perUnit*10 < nSeeded; u++ {
+		u := u
+		c.Unit(fmt.Sprintf("poly-sparse/seeded/%d", u), func() {
+			for i := u * perUnit * 10; i < (u+1)*perUnit*10 && i < nSeeded && !c.Stopped(); i++ {
+				g, what := seededGraph(c.Rand("seeded-graph", i), i)
+				if g.N > 9 {
+					continue
+				}
+				r := computeRef(g, true, false)
+				cs := &graphCase{workload: "poly-sparse:" + what, class: g.G6(), labelling: 0, perm: identity(g.N), g: g, ref: r}
+				newJudge(c, cs, "sparse", "rg.Sparse()", nil).polynomial(cs.g.Sparse(), "sparse")
 			}
 		})
 	}
